@@ -208,4 +208,13 @@ Section RoundTrip.
     unfold a. rewrite (nd_transpose_roundtrip d a0 L K HL Hk Hpos0 Hdata).
     unfold a0 at 1. cbn [nd_shape]. rewrite prod_app, !prod_rev, Hprod_p, Hprod_s, Nat.eqb_refl. cbn [negb]. reflexivity.
   Qed.
+
+  (** the exact shape of the N-D form: one axis per dimension in file order, of the size the matrices show for it *)
+  Theorem to_nd_shape :
+    forall a labels, to_nd d main pos spec false = Ok (a, labels) ->
+      nd_shape a = get_dimensionality (transpose2d 0 pos) (seq 0 kp) ++ get_dimensionality spec (seq 0 ks) /\ labels = seq 0 K.
+  Proof.
+    intros a labels Hto. rewrite to_nd_value in Hto. injection Hto as <- <-. split; [|reflexivity].
+    rewrite expected_shape. reflexivity.
+  Qed.
 End RoundTrip.
